@@ -42,6 +42,7 @@ REQUIRED_MONITORS = ['config-object-vs-text', 'channel:ocr-precedence', 'bool-se
                      'channel:A=C-reparsed',
                      'unknown-name:config-attribute', 'channel:A=B', 'channel:A=C',
                      'channel:split', 'channel:cross',
+                     'channel:shared-config-object',
                      'channel:K', 'channel:M', 'tract:A=B', 'tract:A=C',
                      'hook:PLSSParser.__init__', 'hook:TractParser.__init__']
 
@@ -55,6 +56,9 @@ VALUES = {
     'qq_depth_max': [2, 3, 4], 'break_halves': [True, False],
     'sec_within': [True, False],
 }
+# aliquots whose standard form differs from the written components (halves
+# on crossing axes merge into a quarter, a quarter in front of a half)
+ODD_ALIQUOTS = 'T154N-R97W Sec 14: W/2N/2, SE/4W/2, N/2E/2NE/4, S/2N/2E/2'
 WITNESS = {
     'default_ns': ['T154-R97 Sec 14: NE/4', 'T154-R97W Sec 14: NE/4'],
     'default_ew': ['T154-R97 Sec 14: NE/4', 'T154N-R97 Sec 14: NE/4'],
@@ -70,11 +74,12 @@ WITNESS = {
     'ocr_scrub': ['TIS4N-R97W Sec 14: NE/4', 'T1O4N-RS7W Sec 1: ALL'],
     'segment': ['T154N-R97W Sec 14: NE/4; W/2 of Sec 3, T155N-R97W',
                 'Situated in Dunn County, T154N-R97W Sec 14: NE/4'],
-    'qq_depth': ['T154N-R97W Sec 14: N/2NE/4NE/4'],
+    'qq_depth': ['T154N-R97W Sec 14: N/2NE/4NE/4', ODD_ALIQUOTS],
     'qq_depth_min': ['T154N-R97W Sec 14: N/2NE/4NE/4',
-                     'T154N-R97W Sec 14: NE/4'],
-    'qq_depth_max': ['T154N-R97W Sec 14: N/2NE/4NE/4'],
-    'break_halves': ['T154N-R97W Sec 14: N/2NE/4NE/4, E/2W/2SE/4'],
+                     'T154N-R97W Sec 14: NE/4', ODD_ALIQUOTS],
+    'qq_depth_max': ['T154N-R97W Sec 14: N/2NE/4NE/4', ODD_ALIQUOTS],
+    'break_halves': ['T154N-R97W Sec 14: N/2NE/4NE/4, E/2W/2SE/4',
+                     ODD_ALIQUOTS],
     'sec_within': ['That part of the NE/4 of Sec 14 of T154N-R97W lying north '
                    'of the river'],
 }
@@ -463,6 +468,62 @@ def run_cross(rng, ctx, log, pytrs):
                 f"{[x.qqs for x in dref.tracts]}", dedup=which)
 
 
+# -- a Config object shared between objects -----------------------------------
+
+def run_shared_config(rng, ctx, pytrs):
+    """
+    A keyword of one object's parse() overrides that parse only: the
+    caller's Config object reads the same afterwards, and a second object
+    created from the same Config object parses like one created from the
+    Config's text.
+    """
+    cfgtext = rng.choice(['n,w', '', 's,e', 'qq_depth_min.2', 'break_halves',
+                          'n,w,qq_depth_min.1,qq_depth_max.3'])
+    kw = rng.choice([{'qq_depth': 1, 'clean_qq': True},
+                     {'qq_depth_min': 3}, {'break_halves': True},
+                     {'qq_depth_max': 2, 'qq_depth_min': 1},
+                     {'clean_qq': True}, {'qq_depth': 3}])
+    tdesc = rng.choice(['NE/4', 'N/2NE/4NE/4, S/2', 'NE, N/2 of the SW',
+                        'E/2W/2SE/4'])
+    full = f"T154N-R97W Sec 14: {tdesc}, Sec 15: N/2"
+    case = {'kind': 'shared-config', 'config': cfgtext, 'keywords': kw,
+            'desc': tdesc}
+    ctx.case(['shared', cfgtext, kw, tdesc], True, shape='shared-config',
+             sample=case)
+    ctx.hit('channel:shared-config-object')
+    with ctx.guard(case):
+        cfg = pytrs.Config(cfgtext)
+        before = cfg.decompile_to_text()
+        d1 = pytrs.PLSSDesc(full, config=cfg)
+        d1.parse(parse_qq=True, **kw)
+        if rng.random() < 0.5:
+            d1.parse_tracts(**kw)
+        t1 = pytrs.Tract(tdesc, config=cfg)
+        t1.parse(**kw)
+        after = cfg.decompile_to_text()
+        if after != before:
+            ctx.violation(
+                'keyword-written-into-callers-config', case,
+                f"Config({cfgtext!r}) read {before!r}; after another "
+                f"object's parse({kw}) it reads {after!r}", dedup='text')
+            return
+        d2 = pytrs.PLSSDesc(full, config=cfg)
+        d2.parse_tracts()
+        dref = pytrs.PLSSDesc(full, config=cfgtext)
+        dref.parse_tracts()
+        t2 = pytrs.Tract(tdesc, config=cfg, parse_qq=True)
+        tref = pytrs.Tract(tdesc, config=cfgtext, parse_qq=True)
+        got = [(x.trs, x.lots, x.qqs) for x in d2.tracts] + [t2.lots, t2.qqs]
+        want = [(x.trs, x.lots, x.qqs) for x in dref.tracts] \
+            + [tref.lots, tref.qqs]
+        if got != want:
+            ctx.violation(
+                'shared-config-object-remembers-keywords', case,
+                f"after another object's parse({kw}), objects created from "
+                f"the same Config({cfgtext!r}) give {got}; created from its "
+                f"text they give {want}", dedup='result')
+
+
 # -- the bulk entry points -------------------------------------------------------
 
 def run_bulk(rng, ctx, pytrs):
@@ -832,6 +893,7 @@ def run_shard(shard, ctx):
         for s, st in singles():
             run_tract(st, TRACT_WITNESS, ctx, log, pytrs)
             run_tract(st, 'NE, Lot 1', ctx, log, pytrs)
+            run_tract(st, ODD_ALIQUOTS.split(': ')[1], ctx, log, pytrs)
         return
     if fam == 'pairs':
         items = list(singles())
@@ -862,6 +924,8 @@ def run_shard(shard, ctx):
                 run_layout_over_copy_all(rng, ctx, pytrs)
             if i % 25 == 13:
                 run_ocr_precedence(rng, ctx, pytrs)
+            if i % 10 == 3:
+                run_shared_config(rng, ctx, pytrs)
         return
     if fam == 'single-random':
         for _ in range(shard['n']):
